@@ -23,12 +23,15 @@ def run(ck):
         "MAX_RT|TX_FULL, FLUSH_RX iff not send_only and RX_P_NO<6, exactly one W_TX_PAYLOAD of the caller's bytes. R02.5: the force-retry loop calls "
         "resend(send_only) at most force_retry times. R02.6: resend() returns False on an empty TX FIFO before touching CE or flags, clears MAX_RT "
         "before raising CE, never loads a payload. R02.7: pipe-number tests isolate RX_P_NO. R02.9: a flag cleared by a write to STATUS is not "
-        "tested in the STATUS byte clocked out by that same write (datasheet SPI timing).")
+        "tested in the STATUS byte clocked out by that same write (datasheet SPI timing). R02.10: a list/tuple batch is one recursive send() per "
+        "element, in order, with the caller's ask_no_ack / force_retry / send_only.")
     ck.not_decided = ["that True is returned iff the radio completed the transmission on air, and the wall-clock bound from ARC/ARD: they depend on "
                       "the silicon raising TX_DS/MAX_RT; the polling loops have no software timeout (reported as an assumption)"]
     radio = Radio(ck)
     agg = Agg(ck)
     n = run_for(ck, radio, agg)
+    # R02.10: a batch (list/tuple) is one send() per element with the caller's options - send_only / force_retry apply to every element
+    link.send_list(radio, agg, rule="R02.10")
     agg.flush()
     ck.floor("R02.4", "send() prologue scenarios", n[0], 256)
     ck.floor("R02", "send() outcome scenarios", n[1], 4)
